@@ -183,7 +183,9 @@ def judge_source(ctx, src, ref, feats, ast, profile):
     key = 'misassembly'
     if ast is not None:
         try:
-            if 'string-multispace' in feats and only_ws_collapsed(got, ref):
+            if 'string-multispace' in feats and (
+                    only_ws_collapsed(got, ref)
+                    or got == asm.assemble(collapse_ws(ast))):
                 key = 'string-whitespace-collapsed'
             elif 'upper_s_prefix' in feats and \
                     got == asm.assemble(upper_strings(ast)):
